@@ -53,6 +53,75 @@ Proof.
   left. split; [reflexivity|]. exists s. reflexivity.
 Qed.
 
+(* ------------------------------------------------------------------ *)
+(* list splitting, payload injectivity                                 *)
+(* ------------------------------------------------------------------ *)
+
+Lemma app_inv_len_head {A} (a b c d : list A) : length a = length b ->
+  a ++ c = b ++ d -> a = b /\ c = d.
+Proof.
+  revert b. induction a as [|x a IH]; intros [|y b] Hl He; cbn [length app] in *; try discriminate Hl.
+  - split; [reflexivity | exact He].
+  - injection He as Hx He. injection Hl as Hl. destruct (IH b Hl He) as [Ha Hc].
+    subst. split; reflexivity.
+Qed.
+
+Lemma app_inv_len_tail {A} (a b c d : list A) : length c = length d ->
+  a ++ c = b ++ d -> a = b /\ c = d.
+Proof.
+  intros Hl He. apply app_inv_len_head; [|exact He].
+  apply (f_equal (@length A)) in He. rewrite !app_length in He. lia.
+Qed.
+
+Lemma payload_inj_VI w z1 z2 : in_irange w z1 = true -> in_irange w z2 = true ->
+  hash_payload (VI w z1) = hash_payload (VI w z2) -> z1 = z2.
+Proof.
+  intros H1 H2 Hp. cbn [hash_payload] in Hp.
+  apply (f_equal (fun b => untwos (wbytes w) (le_val b))) in Hp.
+  rewrite !int_roundtrip in Hp by assumption. exact Hp.
+Qed.
+
+Lemma payload_inj_le w n1 n2 : n1 < 2 ^ (8 * N.of_nat w) -> n2 < 2 ^ (8 * N.of_nat w) ->
+  le_bytes w n1 = le_bytes w n2 -> n1 = n2.
+Proof.
+  intros H1 H2 Hp. apply (f_equal le_val) in Hp.
+  rewrite !uint_roundtrip in Hp by assumption. exact Hp.
+Qed.
+
+(* among well-formed tokens of one kind the hashed payload determines the value *)
+Lemma payload_inj k v1 v2 : kind_shape k v1 = true -> kind_shape k v2 = true ->
+  wf_val v1 = true -> wf_val v2 = true -> hash_payload v1 = hash_payload v2 -> v1 = v2.
+Proof.
+  intros Hs1 Hs2 Hw1 Hw2 Hp.
+  destruct v1 as [|b1|w1 z1|w1 n1|n1|b1|b1|s1|s1]; try destruct w1;
+    cbn [kind_shape existsb] in Hs1; split_kinds;
+    (destruct v2 as [|b2|w2 z2|w2 n2|n2|b2|b2|s2|s2]; try destruct w2;
+     try (vm_compute in Hs2; discriminate Hs2));
+    clear Hs2; cbn [wf_val] in Hw1, Hw2;
+    try reflexivity;
+    try (f_equal; exact (payload_inj_VI _ _ _ Hw1 Hw2 Hp));
+    try (f_equal; unfold in_urange in Hw1, Hw2; apply N.ltb_lt in Hw1; apply N.ltb_lt in Hw2;
+         cbn [hash_payload] in Hp; exact (payload_inj_le _ _ _ Hw1 Hw2 Hp));
+    try (f_equal; cbn [hash_payload] in Hp; exact Hp).
+  - destruct b1, b2; try reflexivity; cbn [hash_payload] in Hp; discriminate Hp.
+  - f_equal. apply N.ltb_lt in Hw1. apply N.ltb_lt in Hw2. cbn [hash_payload] in Hp.
+    apply (payload_inj_le 8 n1 n2); [exact Hw1 | exact Hw2 | exact Hp].
+  - f_equal. apply N.ltb_lt in Hw1. apply N.ltb_lt in Hw2. cbn [hash_payload] in Hp.
+    apply (payload_inj_le 4 b1 b2); [exact Hw1 | exact Hw2 | exact Hp].
+  - f_equal. apply N.ltb_lt in Hw1. apply N.ltb_lt in Hw2. cbn [hash_payload] in Hp.
+    apply (payload_inj_le 8 b1 b2); [exact Hw1 | exact Hw2 | exact Hp].
+Qed.
+
+Lemma leaf_preimage_inj t1 t2 : wf_token t1 = true -> wf_token t2 = true ->
+  kind t1 :: hash_payload (val t1) = kind t2 :: hash_payload (val t2) -> t1 = t2.
+Proof.
+  destruct t1 as [k1 v1], t2 as [k2 v2]. unfold wf_token. cbn [kind val].
+  intros Hw1 Hw2 He. injection He as Hk Hp. subst k2.
+  apply andb_true_iff in Hw1. destruct Hw1 as [Hs1 Hw1].
+  apply andb_true_iff in Hw2. destruct Hw2 as [Hs2 Hw2].
+  rewrite (payload_inj k1 v1 v2 Hs1 Hs2 Hw1 Hw2 Hp). reflexivity.
+Qed.
+
 Section WithH.
 Variable H : bytes -> bytes.
 
@@ -197,7 +266,8 @@ Lemma item_from_await v : adequate v -> wf_value v = true ->
     = hrunO (HPend (mhash H v) (FItem st idx :: ks)) (i + length (flatten v)) fut.
 Proof.
   intros Hv Hw st idx ks i fut Hf.
-  rewrite <- (Hv Hw (FItem st idx :: ks) i fut Hf).
+  transitivity (hrunO (HAwait (FItem st idx :: ks)) i (map Some (flatten v) ++ fut));
+    [|exact (Hv Hw (FItem st idx :: ks) i fut Hf)].
   destruct (flatten_head v Hw) as (t & r & -> & He).
   cbn [map app]. rewrite !hrunO_cons. rewrite (step_in_item st idx ks i t He). reflexivity.
 Qed.
@@ -271,6 +341,10 @@ Proof.
   cbn [deliver]. rewrite hrunO_done. reflexivity.
 Qed.
 
+Corollary hash_two_values_stream v w rest : wf_value v = true ->
+  hash_result H (flatten v ++ flatten w ++ rest) = inl (mhash H v).
+Proof. apply hash_two_values. Qed.
+
 Theorem sink_hash_is_merkle v : wf_value v = true ->
   hash_result H (flatten v) = inl (mhash H v).
 Proof.
@@ -280,6 +354,681 @@ Qed.
 Theorem hash_empty : hash_result H [] = inr EEnd.
 Proof. reflexivity. Qed.
 
+(* a compound cut before its end marker: io.ErrUnexpectedEOF *)
+Theorem hash_unclosed ko kc items : wf_value (Comp ko kc items) = true ->
+  hash_result H (removelast (flatten (Comp ko kc items))) = inr EEnd.
+Proof.
+  intros Hw. pose proof (all_adequate) as Had.
+  cbn [wf_value] in Hw. apply andb_true_iff in Hw. destruct Hw as [Hw Hwi].
+  apply andb_true_iff in Hw. destruct Hw as [Ho _].
+  cbn [flatten]. rewrite app_comm_cons, removelast_app by discriminate.
+  cbn [removelast]. rewrite app_nil_r.
+  rewrite hash_result_hrunO. cbn [map app].
+  rewrite hrunO_cons. cbn [hstep]. rewrite (hf_open [] 0%nat ko Ho). cbn [fst].
+  rewrite (items_run items) by (try discriminate; try exact Hwi; apply Forall_forall; intros x _; apply Had).
+  reflexivity.
+Qed.
+
+(* ------------------------------------------------------------------ *)
+(* C09: the callback events; the last one carries the root hash        *)
+(* ------------------------------------------------------------------ *)
+
+Fixpoint hrunE (s : hstate) (i : nat) (ts : list (option token)) : hstate * list event :=
+  match ts with
+  | [] => (s, [])
+  | t :: r => let '(s1, e1) := hstep H s i t in
+              let '(s2, e2) := hrunE s1 (S i) r in (s2, e1 ++ e2)
+  end.
+
+(* events [evs] happen first *)
+Definition pre (evs : list event) (p : hstate * list event) : hstate * list event :=
+  (fst p, evs ++ snd p).
+
+Lemma pre_nil p : pre [] p = p.
+Proof. destruct p as [s e]. reflexivity. Qed.
+
+Lemma pre_pre a b p : pre a (pre b p) = pre (a ++ b) p.
+Proof. unfold pre. cbn [fst snd]. rewrite app_assoc. reflexivity. Qed.
+
+Lemma hrunE_cons s i t r :
+  hrunE s i (t :: r) = pre (snd (hstep H s i t)) (hrunE (fst (hstep H s i t)) (S i) r).
+Proof.
+  cbn [hrunE]. destruct (hstep H s i t) as [s1 e1]. cbn [fst snd].
+  destruct (hrunE s1 (S i) r) as [s2 e2]. reflexivity.
+Qed.
+
+Lemma hrunE_cons_pre s s' a i t r : hstep H s i t = pre a (hstep H s' i t) ->
+  hrunE s i (t :: r) = pre a (hrunE s' i (t :: r)).
+Proof.
+  intros He. rewrite !hrunE_cons, He. unfold pre. cbn [fst snd]. rewrite app_assoc. reflexivity.
+Qed.
+
+Lemma hrun_hrunE s i ts : hrun H s i ts = hrunE s i (map Some ts).
+Proof.
+  revert s i. induction ts as [|t r IH]; intros s i; cbn [hrun map hrunE].
+  - reflexivity.
+  - destruct (hstep H s i (Some t)) as [s1 e1]. rewrite IH. reflexivity.
+Qed.
+
+Lemma hrunE_app s i a b :
+  hrunE s i (a ++ b) = pre (snd (hrunE s i a)) (hrunE (fst (hrunE s i a)) (i + length a) b).
+Proof.
+  revert s i. induction a as [|t a IH]; intros s i.
+  - cbn [app hrunE length fst snd]. rewrite Nat.add_0_r, pre_nil. reflexivity.
+  - cbn [app length]. rewrite !hrunE_cons, IH. unfold pre. cbn [fst snd].
+    replace (S i + length a)%nat with (i + S (length a))%nat by lia.
+    rewrite app_assoc. reflexivity.
+Qed.
+
+Lemma hrunE_done sum i ts : hrunE (HDone sum) i ts = (HDone sum, []).
+Proof.
+  revert i. induction ts as [|t r IH]; intros i; [reflexivity|].
+  rewrite hrunE_cons. cbn [hstep fst snd]. rewrite IH. reflexivity.
+Qed.
+
+Lemma hash_stream_hrunE ts :
+  hash_stream H ts = hrunE (HAwait []) 0 (map Some ts ++ [None]).
+Proof.
+  unfold hash_stream. rewrite hrunE_app, <- hrun_hrunE, map_length. cbn [Nat.add].
+  destruct (hrun H (HAwait []) 0 ts) as [s ev]. cbn [fst snd]. rewrite hrunE_cons. cbn [hrunE].
+  destruct s as [ks|st idx ks|sub ks|sum|e];
+    try (destruct (hstep H _ (length ts) None) as [s' ev']; unfold pre; cbn [fst snd];
+         rewrite app_nil_r; reflexivity);
+    unfold pre; cbn [hstep fst snd app]; rewrite app_nil_r; reflexivity.
+Qed.
+
+Lemma unwindE_close f sub st idx ks i t :
+  unwind H (S f) sub (FClose st idx :: ks) i t
+  = pre [(Some (H (st ++ sub)), idx)] (unwind H f (H (st ++ sub)) ks i t).
+Proof. cbn [unwind]. destruct (unwind H f (H (st ++ sub)) ks i t) as [s ev]. reflexivity. Qed.
+
+Lemma unwindE_name f sub st idx ks i t :
+  unwind H (S f) sub (FName st idx :: ks) i t
+  = pre [(Some (H (st ++ sub)), idx)] (unwind H f (H (st ++ sub)) ks i t).
+Proof. cbn [unwind]. destruct (unwind H f (H (st ++ sub)) ks i t) as [s ev]. reflexivity. Qed.
+
+Lemma stepE_through_close sub st idx ks i t :
+  hstep H (HPend sub (FClose st idx :: ks)) i t
+  = pre [(Some (H (st ++ sub)), idx)] (hstep H (deliver (H (st ++ sub)) ks) i t).
+Proof.
+  cbn [hstep length]. rewrite unwindE_close. f_equal.
+  destruct ks as [|fr ks']; cbn [deliver hstep unwind]; reflexivity.
+Qed.
+
+Lemma stepE_through_name sub st idx ks i t :
+  hstep H (HPend sub (FName st idx :: ks)) i t
+  = pre [(Some (H (st ++ sub)), idx)] (hstep H (deliver (H (st ++ sub)) ks) i t).
+Proof.
+  cbn [hstep length]. rewrite unwindE_name. f_equal.
+  destruct ks as [|fr ks']; cbn [deliver hstep unwind]; reflexivity.
+Qed.
+
+Lemma hf_leafE ks i t : is_leaf_token t = true -> wf_token t = true ->
+  exists evs, hf H ks i t = (deliver (leaf_hash H t) ks, evs ++ [(Some (leaf_hash H t), i)]).
+Proof.
+  intros Hl Hw. destruct (wf_leaf_kind t Hl Hw) as [_ [[Hr [h Hv]]|[Hr Hk]]];
+    unfold hf, leaf_hash; rewrite Hr.
+  - rewrite Hv. exists []. reflexivity.
+  - rewrite Hk. exists [(None, i)]. reflexivity.
+Qed.
+
+Definition adequateE (v : value) : Prop :=
+  wf_value v = true ->
+  forall ks i fut, fut <> [] ->
+  exists evs,
+    hrunE (HAwait ks) i (map Some (flatten v) ++ fut)
+    = pre (evs ++ [(Some (mhash H v), i)])
+          (hrunE (deliver (mhash H v) ks) (i + length (flatten v)) fut).
+
+Lemma item_from_awaitE v : adequateE v -> wf_value v = true ->
+  forall st idx ks i fut, fut <> [] ->
+  exists evs,
+    hrunE (HIn st idx ks) i (map Some (flatten v) ++ fut)
+    = pre evs (hrunE (HPend (mhash H v) (FItem st idx :: ks)) (i + length (flatten v)) fut).
+Proof.
+  intros Hv Hw st idx ks i fut Hf.
+  destruct (Hv Hw (FItem st idx :: ks) i fut Hf) as [evs Hev].
+  exists (evs ++ [(Some (mhash H v), i)]).
+  transitivity (hrunE (HAwait (FItem st idx :: ks)) i (map Some (flatten v) ++ fut));
+    [|exact Hev].
+  destruct (flatten_head v Hw) as (t & r & -> & He).
+  cbn [map app]. rewrite !hrunE_cons. rewrite (step_in_item st idx ks i t He). reflexivity.
+Qed.
+
+Lemma items_runE items : Forall adequateE items -> forallb wf_value items = true ->
+  forall st idx ks i fut, fut <> [] ->
+  exists evs,
+    hrunE (HIn st idx ks) i (map Some (flat_map flatten items) ++ fut)
+    = pre evs (hrunE (HIn (st ++ flat_map (mhash H) items) idx ks)
+                     (i + length (flat_map flatten items)) fut).
+Proof.
+  induction 1 as [|v items Hv _ IH]; intros Hw st idx ks i fut Hf.
+  - exists []. cbn [flat_map map app length]. rewrite app_nil_r, Nat.add_0_r, pre_nil. reflexivity.
+  - cbn [forallb] in Hw. apply andb_true_iff in Hw. destruct Hw as [Hwv Hwi].
+    cbn [flat_map]. rewrite map_app, <- app_assoc.
+    assert (Hf' : map Some (flat_map flatten items) ++ fut <> []).
+    { destruct (map Some (flat_map flatten items)); [exact Hf | discriminate]. }
+    destruct (item_from_awaitE v Hv Hwv st idx ks i _ Hf') as [e1 E1]. rewrite E1.
+    destruct (map Some (flat_map flatten items) ++ fut) as [|t more] eqn:Em; [congruence|].
+    rewrite hrunE_cons, step_pend_item, <- hrunE_cons, <- Em.
+    destruct (IH Hwi (st ++ mhash H v) idx ks (i + length (flatten v))%nat fut Hf) as [e2 E2].
+    rewrite E2, pre_pre. exists (e1 ++ e2).
+    rewrite app_length, <- app_assoc, Nat.add_assoc. reflexivity.
+Qed.
+
+Theorem all_adequateE : forall v, adequateE v.
+Proof.
+  induction v as [t|ko kc items IH|n v IH] using value_ind2; intros Hw ks i fut Hf.
+  - cbn [wf_value] in Hw. apply andb_true_iff in Hw. destruct Hw as [Hl Hw].
+    cbn [flatten map app length mhash]. rewrite hrunE_cons. cbn [hstep].
+    destruct (hf_leafE ks i t Hl Hw) as [evs Hev]. rewrite Hev. cbn [fst snd].
+    exists evs. rewrite Nat.add_1_r. reflexivity.
+  - cbn [wf_value] in Hw. apply andb_true_iff in Hw. destruct Hw as [Hw Hwi].
+    apply andb_true_iff in Hw. destruct Hw as [Ho Hc]. apply N.eqb_eq in Hc. subst kc.
+    cbn [flatten map]. rewrite map_app. cbn [map app]. rewrite <- app_assoc. cbn [app].
+    rewrite hrunE_cons. cbn [hstep]. rewrite (hf_open ks i ko Ho). cbn [fst snd].
+    destruct (items_runE items IH Hwi [ko] i ks (S i) (Some (T (end_of ko) VNone) :: fut)) as [e1 E1];
+      [discriminate|].
+    rewrite E1.
+    rewrite hrunE_cons. cbn [hstep]. rewrite hc_end. cbn [fst snd].
+    destruct fut as [|t fut']; [congruence|].
+    rewrite (hrunE_cons_pre _ _ _ _ _ _ (stepE_through_close _ _ _ _ _ _)).
+    rewrite !pre_pre.
+    cbn [mhash length]. rewrite app_length. cbn [length].
+    replace (S (S i + length (flat_map flatten items)))
+      with (i + S (length (flat_map flatten items) + 1))%nat by lia.
+    eexists. reflexivity.
+  - cbn [wf_value] in Hw. apply andb_true_iff in Hw. destruct Hw as [_ Hw].
+    cbn [flatten map app].
+    rewrite hrunE_cons. cbn [hstep]. rewrite hf_name. cbn [fst snd].
+    destruct (IH Hw (FName (KTypeName :: n) i :: ks) (S i) fut Hf) as [e1 E1]. rewrite E1.
+    cbn [deliver].
+    destruct fut as [|t fut']; [congruence|].
+    rewrite (hrunE_cons_pre _ _ _ _ _ _ (stepE_through_name _ _ _ _ _ _)).
+    rewrite !pre_pre.
+    cbn [mhash length].
+    replace (S i + length (flatten v))%nat with (i + S (length (flatten v)))%nat by lia.
+    eexists. reflexivity.
+Qed.
+
+(* every event of the run, and the final state: the last callback reports the root hash
+   (for the first token), which is what TreeFromStream(WithHash) attaches to the root *)
+Theorem sink_events_last_strong v more : wf_value v = true ->
+  exists evs, hash_stream H (flatten v ++ more) = (HDone (mhash H v), evs ++ [(Some (mhash H v), 0%nat)]).
+Proof.
+  intros Hw. rewrite hash_stream_hrunE, map_app, <- app_assoc.
+  destruct (all_adequateE v Hw [] 0%nat (map Some more ++ [None])) as [evs Hev];
+    [destruct (map Some more); discriminate|].
+  rewrite Hev. cbn [deliver]. rewrite hrunE_done. exists evs.
+  unfold pre. cbn [fst snd]. rewrite app_nil_r. reflexivity.
+Qed.
+
+Theorem sink_events_last v : wf_value v = true -> mhash H v <> [] ->
+  exists evs idx, snd (hash_stream H (flatten v)) = evs ++ [(Some (mhash H v), idx)].
+Proof.
+  intros Hw _. destruct (sink_events_last_strong v [] Hw) as [evs Hev].
+  rewrite app_nil_r in Hev. rewrite Hev. exists evs, 0%nat. reflexivity.
+Qed.
+
+(* ------------------------------------------------------------------ *)
+(* C10: substitution of references                                     *)
+(* ------------------------------------------------------------------ *)
+
+Lemma subst_hash_gen sel : forall v i, mhash H (subst_at H sel i v) = mhash H v.
+Proof.
+  induction v as [t|ko kc items IH|n v IH] using value_ind2; intros i; cbn [subst_at];
+    destruct (existsb (Nat.eqb i) sel); try reflexivity.
+  - cbn [mhash]. f_equal. f_equal. f_equal.
+    generalize (S i). induction IH as [|x l Hx _ IHl]; intros j; cbn [flat_map]; [reflexivity|].
+    rewrite Hx, IHl. reflexivity.
+  - cbn [mhash]. rewrite IH. reflexivity.
+Qed.
+
+Theorem subst_hash sel i v : mhash H (subst_at H sel i v) = mhash H v.
+Proof. apply subst_hash_gen. Qed.
+
+Lemma wf_bytesb_of s : wf_bytes s -> wf_bytesb s = true.
+Proof.
+  unfold wf_bytes, wf_bytesb. intros Hs. apply forallb_forall. intros x Hx.
+  rewrite Forall_forall in Hs. specialize (Hs x Hx). unfold wf_byte in Hs. unfold wf_byteb. lia.
+Qed.
+
+Lemma mhash_wf v : (forall x, wf_bytes (H x)) -> wf_value v = true -> wf_bytesb (mhash H v) = true.
+Proof.
+  intros HH Hw. destruct v as [t|ko kc items|n v]; cbn [mhash]; try (apply wf_bytesb_of, HH).
+  cbn [wf_value] in Hw. apply andb_true_iff in Hw. destruct Hw as [_ Hw].
+  unfold leaf_hash. destruct (kind t =? KRef); [|apply wf_bytesb_of, HH].
+  unfold wf_token in Hw. apply andb_true_iff in Hw. destruct Hw as [_ Hw].
+  destruct (val t); try reflexivity. exact Hw.
+Qed.
+
+Lemma subst_wf_gen sel : (forall x, wf_bytes (H x)) ->
+  forall v i, wf_value v = true -> wf_value (subst_at H sel i v) = true.
+Proof.
+  intros HH.
+  induction v as [t|ko kc items IH|n v IH] using value_ind2; intros i Hw; cbn [subst_at];
+    destruct (existsb (Nat.eqb i) sel);
+    try (cbn [wf_value]; unfold is_leaf_token, wf_token; cbn [kind val wf_val];
+         rewrite (mhash_wf _ HH Hw); reflexivity).
+  - exact Hw.
+  - cbn [wf_value] in *. apply andb_true_iff in Hw. destruct Hw as [Hw Hwi]. rewrite Hw. cbn [andb].
+    generalize (S i). induction IH as [|x l Hx _ IHl]; intros j; cbn [forallb]; [reflexivity|].
+    cbn [forallb] in Hwi. apply andb_true_iff in Hwi. destruct Hwi as [Hwx Hwl].
+    rewrite (Hx j Hwx), (IHl Hwl). reflexivity.
+  - cbn [wf_value] in *. apply andb_true_iff in Hw. destruct Hw as [Hn Hw].
+    rewrite Hn, (IH _ Hw). reflexivity.
+Qed.
+
+(* a hash returns bytes: needed for the reference tokens to be well-formed *)
+Theorem subst_wf sel i v : (forall x, wf_bytes (H x)) -> wf_value v = true ->
+  wf_value (subst_at H sel i v) = true.
+Proof. intros HH Hw. apply subst_wf_gen; assumption. Qed.
+
+Corollary subst_then_hash sel i v : wf_value v = true -> (forall x, wf_bytes (H x)) ->
+  hash_result H (flatten (subst_at H sel i v)) = inl (mhash H v).
+Proof.
+  intros Hw HH. rewrite sink_hash_is_merkle by (apply subst_wf; assumption).
+  rewrite subst_hash. reflexivity.
+Qed.
+
+(* ---- Deref ---- *)
+
+Lemma deref_cons_noref resolve t r : kind t <> KRef ->
+  deref resolve (t :: r) = (t :: fst (deref resolve r), snd (deref resolve r)).
+Proof.
+  intros Hk. cbn [deref]. apply N.eqb_neq in Hk. rewrite Hk.
+  destruct (deref resolve r) as [o e]. reflexivity.
+Qed.
+
+Lemma deref_app resolve a : forall a' b, deref resolve a = (a', ENone) ->
+  deref resolve (a ++ b) = (a' ++ fst (deref resolve b), snd (deref resolve b)).
+Proof.
+  induction a as [|t r IH]; intros a' b Ha.
+  - cbn [deref] in Ha. inversion Ha; subst. cbn [app]. apply surjective_pairing.
+  - cbn [app deref] in *. destruct (kind t =? KRef).
+    + destruct (val t) as [|b0|w z|w n|n|b0|b0|s|h]; try discriminate Ha.
+      destruct (resolve h) as [sub| |].
+      * destruct (deref resolve r) as [o e]. inversion Ha; subst.
+        rewrite (IH o b eq_refl). rewrite app_assoc. reflexivity.
+      * destruct (deref resolve r) as [o e]. inversion Ha; subst.
+        rewrite (IH o b eq_refl). reflexivity.
+      * discriminate Ha.
+    + destruct (deref resolve r) as [o e]. inversion Ha; subst.
+      rewrite (IH o b eq_refl). reflexivity.
+Qed.
+
+Theorem deref_no_refs resolve ts : (forall t, In t ts -> kind t <> KRef) ->
+  deref resolve ts = (ts, ENone).
+Proof.
+  induction ts as [|t r IH]; intros Hk; [reflexivity|].
+  rewrite deref_cons_noref by (apply Hk; left; reflexivity).
+  rewrite IH by (intros t' Ht'; apply Hk; right; exact Ht'). reflexivity.
+Qed.
+
+Theorem deref_error resolve pre h post : (forall t, In t pre -> kind t <> KRef) -> resolve h = RFail ->
+  deref resolve (pre ++ T KRef (VBytes h) :: post) = (pre, EFault).
+Proof.
+  intros Hk Hr. rewrite (deref_app resolve pre pre) by (apply deref_no_refs; exact Hk).
+  cbn [deref kind val]. rewrite N.eqb_refl, Hr. cbn [fst snd]. rewrite app_nil_r. reflexivity.
+Qed.
+
+Lemma ref_shape v : kind_shape KRef v = true -> exists h, v = VBytes h.
+Proof.
+  destruct v as [|b|w z|w n|n|b|b|s|s]; try destruct w; intros Hs;
+    try (vm_compute in Hs; discriminate Hs).
+  exists s. reflexivity.
+Qed.
+
+(* the statement without a hypothesis on the tokens is false: a Ref token without bytes panics *)
+Theorem deref_declined_refuted :
+  exists resolve ts, (forall h, resolve h = RDecline) /\ deref resolve ts <> (ts, ENone).
+Proof. exists (fun _ => RDecline), [T KRef VNone]. split; [reflexivity|]. vm_compute. discriminate. Qed.
+
+Theorem deref_declined_partial resolve ts : (forall h, resolve h = RDecline) ->
+  (forall t, In t ts -> wf_token t = true) -> deref resolve ts = (ts, ENone).
+Proof.
+  intros Hd. induction ts as [|t r IH]; intros Hw; [reflexivity|].
+  assert (IHr : deref resolve r = (r, ENone)) by (apply IH; intros t' Ht'; apply Hw; right; exact Ht').
+  cbn [deref]. destruct (kind t =? KRef) eqn:Ek.
+  - apply N.eqb_eq in Ek. specialize (Hw t (or_introl eq_refl)).
+    unfold wf_token in Hw. apply andb_true_iff in Hw. destruct Hw as [Hs _].
+    rewrite Ek in Hs. destruct (ref_shape _ Hs) as [h Hv]. rewrite Hv, Hd, IHr. reflexivity.
+  - rewrite IHr. reflexivity.
+Qed.
+
+Lemma deref_ref_single resolve h sub : resolve h = RStream sub ->
+  deref resolve [T KRef (VBytes h)] = (sub, ENone).
+Proof. intros Hr. cbn [deref kind val]. rewrite N.eqb_refl, Hr, app_nil_r. reflexivity. Qed.
+
+Lemma deref_subst resolve sel : forall v i,
+  Forall (fun t => kind t <> KRef) (flatten v) ->
+  (forall j s, In (j, s) (selected sel i v) -> resolve (mhash H s) = RStream (flatten s)) ->
+  deref resolve (flatten (subst_at H sel i v)) = (flatten v, ENone).
+Proof.
+  induction v as [t|ko kc items IH|n v IH] using value_ind2; intros i Hnr Hsel;
+    cbn [subst_at selected] in *; destruct (existsb (Nat.eqb i) sel);
+    try (apply deref_ref_single; apply (Hsel i); left; reflexivity).
+  - cbn [flatten] in *. apply deref_no_refs. intros t' [<-|[]]. inversion Hnr; assumption.
+  - cbn [flatten] in *. inversion Hnr as [|t0 l0 Hko Hrest]; subst.
+    apply Forall_app in Hrest. destruct Hrest as [Hitems Hkc].
+    rewrite deref_cons_noref by exact Hko.
+    assert (Hgo : forall j,
+      (forall j' s, In (j', s)
+         ((fix go (j : nat) (l : list value) : list (nat * value) :=
+             match l with
+             | [] => []
+             | x :: r => selected sel j x ++ go (j + vlen x)%nat r
+             end) j items) -> resolve (mhash H s) = RStream (flatten s)) ->
+      deref resolve (flat_map flatten
+         ((fix go (j : nat) (l : list value) : list value :=
+             match l with
+             | [] => []
+             | x :: r => subst_at H sel j x :: go (j + vlen x)%nat r
+             end) j items)) = (flat_map flatten items, ENone)).
+    { clear Hsel Hnr. revert Hitems.
+      induction IH as [|x l Hx _ IHl]; intros Hitems j Hs; [reflexivity|].
+      cbn [flat_map] in *. apply Forall_app in Hitems. destruct Hitems as [Hfx Hfl].
+      rewrite (deref_app resolve _ (flatten x)).
+      - rewrite (IHl Hfl (j + vlen x)%nat) by (intros j' s Hin; apply (Hs j'); apply in_or_app; right; exact Hin).
+        reflexivity.
+      - apply Hx; [exact Hfx|]. intros j' s Hin. apply (Hs j'). apply in_or_app. left. exact Hin. }
+    rewrite (deref_app resolve _ (flat_map flatten items)) by (apply Hgo; exact Hsel).
+    rewrite deref_no_refs by (intros t' [<-|[]]; inversion Hkc; assumption).
+    reflexivity.
+  - cbn [flatten] in *. inversion Hnr as [|t0 l0 Hk Hrest]; subst.
+    rewrite deref_cons_noref by exact Hk.
+    rewrite (IH (S i) Hrest Hsel). reflexivity.
+Qed.
+
+Lemma wf_ref_free_tokens v : wf_value v = true -> ref_free v = true ->
+  Forall (fun t => kind t <> KRef) (flatten v).
+Proof.
+  induction v as [t|ko kc items IH|n v IH] using value_ind2; cbn [wf_value ref_free flatten]; intros Hw Hr.
+  - constructor; [|constructor]. apply negb_true_iff in Hr. apply N.eqb_neq. exact Hr.
+  - apply andb_true_iff in Hw. destruct Hw as [Hw Hwi].
+    apply andb_true_iff in Hw. destruct Hw as [Ho Hc]. apply N.eqb_eq in Hc. subst kc.
+    constructor.
+    + cbn [kind]. apply N.eqb_neq. apply (open_kind_facts ko Ho).
+    + apply Forall_app. split.
+      * induction IH as [|x l Hx _ IHl]; cbn [flat_map]; [constructor|].
+        cbn [forallb] in *. apply andb_true_iff in Hwi. destruct Hwi as [Hwx Hwl].
+        apply andb_true_iff in Hr. destruct Hr as [Hrx Hrl].
+        apply Forall_app. split; [apply Hx; assumption | apply IHl; assumption].
+      * constructor; [|constructor]. cbn [kind]. apply N.eqb_neq. apply (end_of_facts ko).
+  - apply andb_true_iff in Hw. destruct Hw as [_ Hw].
+    constructor; [cbn [kind]; apply N.eqb_neq; reflexivity | apply IH; assumption].
+Qed.
+
+(* without well-formedness the statement is false: an opening token of kind Ref panics *)
+Theorem deref_restores_refuted :
+  exists resolve sel i v, ref_free v = true /\
+    (forall j s, In (j, s) (selected sel i v) -> resolve (mhash H s) = RStream (flatten s)) /\
+    deref resolve (flatten (subst_at H sel i v)) <> (flatten v, ENone).
+Proof.
+  exists (fun _ => RDecline), [], 0%nat, (Comp KRef 0 []).
+  split; [reflexivity|]. split; [intros j s []|]. vm_compute. discriminate.
+Qed.
+
+Theorem deref_restores_partial resolve sel i v : wf_value v = true -> ref_free v = true ->
+  (forall j s, In (j, s) (selected sel i v) -> resolve (mhash H s) = RStream (flatten s)) ->
+  deref resolve (flatten (subst_at H sel i v)) = (flatten v, ENone).
+Proof.
+  intros Hw Hr Hsel. apply deref_subst; [apply wf_ref_free_tokens; assumption | exact Hsel].
+Qed.
+
+(* ------------------------------------------------------------------ *)
+(* C09: the Merkle function is injective for an ideal hash             *)
+(* ------------------------------------------------------------------ *)
+
+Definition fixed_len (L : nat) := forall x, length (H x) = L.
+Definition inj := forall x y, H x = H y -> x = y.
+
+(* what is hashed at the root of a reference-free value *)
+Definition preimage (v : value) : bytes :=
+  match v with
+  | Leaf t => kind t :: hash_payload (val t)
+  | Comp ko kc items => ko :: flat_map (mhash H) items ++ H [kc]
+  | Named n v => KTypeName :: n ++ mhash H v
+  end.
+
+Lemma mhash_preimage v : ref_free v = true -> mhash H v = H (preimage v).
+Proof.
+  destruct v as [t|ko kc items|n v]; cbn [ref_free mhash preimage]; intros Hr; try reflexivity.
+  unfold leaf_hash. apply negb_true_iff in Hr. rewrite Hr. reflexivity.
+Qed.
+
+Lemma mhash_len L v : fixed_len L -> ref_free v = true -> length (mhash H v) = L.
+Proof. intros HL Hr. rewrite mhash_preimage by exact Hr. apply HL. Qed.
+
+Lemma items_split L : fixed_len L -> (0 < L)%nat ->
+  forall items1 items2 tl1 tl2, length tl1 = L -> length tl2 = L ->
+  forallb ref_free items1 = true -> forallb ref_free items2 = true ->
+  flat_map (mhash H) items1 ++ tl1 = flat_map (mhash H) items2 ++ tl2 ->
+  Forall2 (fun a b => mhash H a = mhash H b) items1 items2 /\ tl1 = tl2.
+Proof.
+  intros HL Hpos. induction items1 as [|x1 r1 IH]; intros [|x2 r2] tl1 tl2 Ht1 Ht2 Hr1 Hr2 He;
+    cbn [flat_map forallb app] in *.
+  - split; [constructor | exact He].
+  - apply andb_true_iff in Hr2. destruct Hr2 as [Hx2 _].
+    apply (f_equal (@length N)) in He. rewrite !app_length, (mhash_len L x2 HL Hx2) in He. lia.
+  - apply andb_true_iff in Hr1. destruct Hr1 as [Hx1 _].
+    apply (f_equal (@length N)) in He. rewrite !app_length, (mhash_len L x1 HL Hx1) in He. lia.
+  - apply andb_true_iff in Hr1. destruct Hr1 as [Hx1 Hr1].
+    apply andb_true_iff in Hr2. destruct Hr2 as [Hx2 Hr2].
+    rewrite <- !app_assoc in He.
+    apply app_inv_len_head in He;
+      [|rewrite (mhash_len L x1 HL Hx1), (mhash_len L x2 HL Hx2); reflexivity].
+    destruct He as [Hx He].
+    destruct (IH r2 tl1 tl2 Ht1 Ht2 Hr1 Hr2 He) as [Hf Ht].
+    split; [constructor; assumption | exact Ht].
+Qed.
+
+Lemma mhash_injective_gen L : inj -> fixed_len L -> (0 < L)%nat ->
+  forall v1 v2, wf_value v1 = true -> wf_value v2 = true -> ref_free v1 = true -> ref_free v2 = true ->
+  mhash H v1 = mhash H v2 -> flatten v1 = flatten v2.
+Proof.
+  intros Hinj HL Hpos.
+  induction v1 as [t1|ko1 kc1 items1 IH|n1 v1 IH] using value_ind2;
+    intros v2 Hw1 Hw2 Hr1 Hr2 Hm;
+    rewrite (mhash_preimage _ Hr1), (mhash_preimage _ Hr2) in Hm; apply Hinj in Hm;
+    destruct v2 as [t2|ko2 kc2 items2|n2 v2]; cbn [preimage] in Hm;
+    cbn [wf_value] in Hw1, Hw2; cbn [ref_free] in Hr1, Hr2.
+  - (* leaf, leaf *)
+    apply andb_true_iff in Hw1. destruct Hw1 as [_ Hw1].
+    apply andb_true_iff in Hw2. destruct Hw2 as [_ Hw2].
+    rewrite (leaf_preimage_inj t1 t2 Hw1 Hw2 Hm). reflexivity.
+  - (* leaf, compound *)
+    exfalso. injection Hm as Hk _.
+    apply andb_true_iff in Hw1. destruct Hw1 as [Hl _]. unfold is_leaf_token in Hl.
+    apply andb_true_iff in Hl. destruct Hl as [Hl _]. apply andb_true_iff in Hl. destruct Hl as [Hl _].
+    apply andb_true_iff in Hw2. destruct Hw2 as [Hw2 _]. apply andb_true_iff in Hw2. destruct Hw2 as [Ho _].
+    rewrite Hk, Ho in Hl. discriminate Hl.
+  - (* leaf, name *)
+    exfalso. injection Hm as Hk _.
+    apply andb_true_iff in Hw1. destruct Hw1 as [Hl _]. unfold is_leaf_token in Hl.
+    apply andb_true_iff in Hl. destruct Hl as [_ Hl]. rewrite Hk in Hl. discriminate Hl.
+  - (* compound, leaf *)
+    exfalso. injection Hm as Hk _.
+    apply andb_true_iff in Hw2. destruct Hw2 as [Hl _]. unfold is_leaf_token in Hl.
+    apply andb_true_iff in Hl. destruct Hl as [Hl _]. apply andb_true_iff in Hl. destruct Hl as [Hl _].
+    apply andb_true_iff in Hw1. destruct Hw1 as [Hw1 _]. apply andb_true_iff in Hw1. destruct Hw1 as [Ho _].
+    rewrite <- Hk, Ho in Hl. discriminate Hl.
+  - (* compound, compound *)
+    injection Hm as Hk He. subst ko2.
+    apply andb_true_iff in Hw1. destruct Hw1 as [_ Hwi1].
+    apply andb_true_iff in Hw2. destruct Hw2 as [_ Hwi2].
+    destruct (items_split L HL Hpos items1 items2 (H [kc1]) (H [kc2]) (HL _) (HL _) Hr1 Hr2 He) as [Hf Hc].
+    apply Hinj in Hc. injection Hc as Hc. subst kc2.
+    cbn [flatten]. f_equal. f_equal.
+    clear He. revert IH Hwi1 Hwi2 Hr1 Hr2.
+    induction Hf as [|x1 x2 r1 r2 Hx _ IHf]; intros IH Hwi1 Hwi2 Hr1 Hr2; [reflexivity|].
+    cbn [flat_map forallb] in *.
+    apply andb_true_iff in Hwi1. destruct Hwi1 as [Hwx1 Hwi1].
+    apply andb_true_iff in Hwi2. destruct Hwi2 as [Hwx2 Hwi2].
+    apply andb_true_iff in Hr1. destruct Hr1 as [Hrx1 Hr1].
+    apply andb_true_iff in Hr2. destruct Hr2 as [Hrx2 Hr2].
+    inversion IH as [|x0 l0 IHx IHr]; subst.
+    rewrite (IHx x2 Hwx1 Hwx2 Hrx1 Hrx2 Hx), (IHf IHr Hwi1 Hwi2 Hr1 Hr2). reflexivity.
+  - (* compound, name *)
+    exfalso. injection Hm as Hk _.
+    apply andb_true_iff in Hw1. destruct Hw1 as [Hw1 _]. apply andb_true_iff in Hw1. destruct Hw1 as [Ho _].
+    rewrite Hk in Ho. discriminate Ho.
+  - (* name, leaf *)
+    exfalso. injection Hm as Hk _.
+    apply andb_true_iff in Hw2. destruct Hw2 as [Hl _]. unfold is_leaf_token in Hl.
+    apply andb_true_iff in Hl. destruct Hl as [_ Hl]. rewrite <- Hk in Hl. discriminate Hl.
+  - (* name, compound *)
+    exfalso. injection Hm as Hk _.
+    apply andb_true_iff in Hw2. destruct Hw2 as [Hw2 _]. apply andb_true_iff in Hw2. destruct Hw2 as [Ho _].
+    rewrite <- Hk in Ho. discriminate Ho.
+  - (* name, name *)
+    injection Hm as He.
+    apply app_inv_len_tail in He;
+      [|rewrite (mhash_len L v1 HL Hr1), (mhash_len L v2 HL Hr2); reflexivity].
+    destruct He as [Hn He]. subst n2.
+    apply andb_true_iff in Hw1. destruct Hw1 as [_ Hw1].
+    apply andb_true_iff in Hw2. destruct Hw2 as [_ Hw2].
+    cbn [flatten]. rewrite (IH v2 Hw1 Hw2 Hr1 Hr2 He). reflexivity.
+Qed.
+
+Theorem mhash_injective L v1 v2 : inj -> fixed_len L -> (0 < L)%nat ->
+  wf_value v1 = true -> wf_value v2 = true -> ref_free v1 = true -> ref_free v2 = true ->
+  mhash H v1 = mhash H v2 -> flatten v1 = flatten v2.
+Proof. intros Hinj HL Hpos. apply (mhash_injective_gen L Hinj HL Hpos). Qed.
+
 End WithH.
 
+(* ------------------------------------------------------------------ *)
+(* satisfiability examples                                             *)
+(* ------------------------------------------------------------------ *)
+
+(* a toy hash: (length mod 256, byte sum mod 256) *)
+Definition toyH (bs : bytes) : bytes :=
+  [N.of_nat (length bs) mod 256; fold_right N.add 0 bs mod 256].
+
+Lemma toyH_wf x : wf_bytes (toyH x).
+Proof. unfold toyH. constructor; [apply mod256_lt|]. constructor; [apply mod256_lt|constructor]. Qed.
+
+(* indices: 0 name, 1 array, 2 int, 3 string, 4 map, 5 map end, 6 name, 7 bool, 8 array end *)
+Definition ex_value : value :=
+  Named [1; 2]
+    (Comp KArray KArrayEnd
+       [Leaf (T KInt (VI WNat 5)); Leaf (T KString (VStr [104; 105]));
+        Comp KMap KMapEnd []; Named [7] (Leaf (T KBool (VBool true)))]).
+
+Example ex_sink_hash_is_merkle :
+  wf_value ex_value = true /\
+  hash_result toyH (flatten ex_value) = inl (mhash toyH ex_value) /\
+  mhash toyH ex_value <> [] /\
+  snd (hash_stream toyH (flatten ex_value))
+    = removelast (snd (hash_stream toyH (flatten ex_value))) ++ [(Some (mhash toyH ex_value), 0%nat)].
+Proof. vm_compute. repeat split; try reflexivity. discriminate. Qed.
+
+Example ex_hash_two_values :
+  hash_result toyH (flatten ex_value ++ flatten ex_value ++ [T KArrayEnd VNone]) = inl (mhash toyH ex_value).
+Proof. vm_compute. reflexivity. Qed.
+
+Example ex_hash_unclosed :
+  wf_value (Comp KArray KArrayEnd [ex_value]) = true /\
+  hash_result toyH (removelast (flatten (Comp KArray KArrayEnd [ex_value]))) = inr EEnd.
+Proof. vm_compute. split; reflexivity. Qed.
+
+Definition ex_resolve (sel : list nat) (h : bytes) : resolution :=
+  match find (fun p => bytes_eqb (mhash toyH (snd p)) h) (selected sel 0 ex_value) with
+  | Some (_, s) => RStream (flatten s)
+  | None => RDecline
+  end.
+
+Example ex_subst :
+  ref_free ex_value = true /\
+  map fst (selected [3; 4]%nat 0 ex_value) = [3; 4]%nat /\
+  wf_value (subst_at toyH [3; 4]%nat 0 ex_value) = true /\
+  mhash toyH (subst_at toyH [3; 4]%nat 0 ex_value) = mhash toyH ex_value /\
+  length (flatten (subst_at toyH [3; 4]%nat 0 ex_value)) = 8%nat /\
+  (forall j s, In (j, s) (selected [3; 4]%nat 0 ex_value) ->
+     ex_resolve [3; 4]%nat (mhash toyH s) = RStream (flatten s)) /\
+  deref (ex_resolve [3; 4]%nat) (flatten (subst_at toyH [3; 4]%nat 0 ex_value)) = (flatten ex_value, ENone).
+Proof.
+  repeat split; try (vm_compute; reflexivity).
+  intros j s Hin. vm_compute in Hin.
+  destruct Hin as [E|[E|[]]]; inversion E; subst; vm_compute; reflexivity.
+Qed.
+
+Example ex_deref_error :
+  deref (fun _ => RFail) ([T KArray VNone] ++ T KRef (VBytes [1; 2]) :: [T KArrayEnd VNone])
+  = ([T KArray VNone], EFault).
+Proof. vm_compute. reflexivity. Qed.
+
+(* an ideal hash exists: an injective function with outputs of one fixed length
+   (a self-delimiting binary code of the byte list, as a single number) *)
+Fixpoint encpos (q tail : positive) : positive :=
+  match q with
+  | xH => xO (xI tail)
+  | xO q' => xI (xO (encpos q' tail))
+  | xI q' => xI (xI (encpos q' tail))
+  end.
+Definition encN (a : N) (tail : positive) : positive :=
+  match a with N0 => xO (xO tail) | Npos q => encpos q tail end.
+Fixpoint enc (l : bytes) : positive :=
+  match l with [] => xH | a :: r => encN a (enc r) end.
+Definition idealH (x : bytes) : bytes := [Npos (enc x)].
+
+Lemma encpos_inj q : forall q' t t', encpos q t = encpos q' t' -> q = q' /\ t = t'.
+Proof.
+  induction q as [q IH|q IH|]; intros [q'|q'|] t t' He; cbn [encpos] in He; try discriminate He.
+  - injection He as He. destruct (IH q' t t' He) as [-> ->]. split; reflexivity.
+  - injection He as He. destruct (IH q' t t' He) as [-> ->]. split; reflexivity.
+  - injection He as He. subst. split; reflexivity.
+Qed.
+
+Lemma encN_inj a a' t t' : encN a t = encN a' t' -> a = a' /\ t = t'.
+Proof.
+  destruct a as [|q], a' as [|q']; cbn [encN]; intros He.
+  - injection He as He. subst. split; reflexivity.
+  - destruct q'; discriminate He.
+  - destruct q; discriminate He.
+  - destruct (encpos_inj q q' t t' He) as [-> ->]. split; reflexivity.
+Qed.
+
+Lemma enc_inj l : forall l', enc l = enc l' -> l = l'.
+Proof.
+  induction l as [|a r IH]; intros [|a' r'] He; cbn [enc] in He.
+  - reflexivity.
+  - destruct a' as [|[q|q|]]; discriminate He.
+  - destruct a as [|[q|q|]]; discriminate He.
+  - destruct (encN_inj a a' _ _ He) as [-> Hr]. rewrite (IH r' Hr). reflexivity.
+Qed.
+
+Example ex_ideal_hash : inj idealH /\ fixed_len idealH 1 /\ (0 < 1)%nat.
+Proof.
+  split; [|split; [intros x; reflexivity | lia]].
+  intros x y He. unfold idealH in He. injection He as He. apply enc_inj. exact He.
+Qed.
+
+Example ex_mhash_injective v :
+  wf_value v = true -> ref_free v = true -> mhash idealH v = mhash idealH ex_value ->
+  flatten v = flatten ex_value.
+Proof.
+  intros Hw Hr Hm. destruct ex_ideal_hash as (Hi & Hl & Hp).
+  apply (mhash_injective idealH 1 v ex_value Hi Hl Hp Hw); [reflexivity | exact Hr | reflexivity | exact Hm].
+Qed.
+
 Print Assumptions sink_hash_is_merkle.
+Print Assumptions sink_events_last.
+Print Assumptions sink_events_last_strong.
+Print Assumptions hash_two_values.
+Print Assumptions hash_two_values_stream.
+Print Assumptions hash_empty.
+Print Assumptions hash_unclosed.
+Print Assumptions mhash_injective.
+Print Assumptions subst_hash.
+Print Assumptions subst_wf.
+Print Assumptions subst_then_hash.
+Print Assumptions deref_restores_partial.
+Print Assumptions deref_restores_refuted.
+Print Assumptions deref_declined_partial.
+Print Assumptions deref_declined_refuted.
+Print Assumptions deref_no_refs.
+Print Assumptions deref_error.
+Print Assumptions ex_ideal_hash.
+Print Assumptions ex_mhash_injective.
